@@ -803,6 +803,14 @@ func genHammer(p *plan.SchedPlan, r *plan.Rand, uniq string, k int) *plan.SchedP
 			break
 		}
 	}
+	if obj.Kind == "evaluator" && r.Chance(0.2) {
+		// a long chain whose every term has to be evaluated: `and` over true
+		// terms or `or` over false ones - deep recursion in every caller at the
+		// same time, and an expression text of a kilobyte or more
+		if e := deepChain(r, obj, p.Data[0]); e != "" {
+			obj.Expr = e
+		}
+	}
 	p.Objects = []ObjSpec{obj}
 	p.Primed = []bool{r.Chance(0.2)}
 	kind := "eval"
@@ -830,6 +838,44 @@ func genHammer(p *plan.SchedPlan, r *plan.Rand, uniq string, k int) *plan.SchedP
 		p.Tasks = append(p.Tasks, ops)
 	}
 	return p
+}
+
+// deepChain builds `t1 and t2 and ... and tn` from terms that are true on the
+// datum (or `or` over false terms), measured with the library itself, so that
+// evaluation walks the whole right-recursive chain.
+func deepChain(r *plan.Rand, obj ObjSpec, d DatumSpec) string {
+	root := Build(d)
+	g := &ExprGen{R: r.Fork(), Tag: obj.Opts.Tag}
+	var scope []scopePath
+	for _, pi := range EnumPaths(reflect.ValueOf(root), g.Tag, 3) {
+		scope = append(scope, scopePath{PathInfo: pi})
+	}
+	if len(scope) == 0 {
+		return ""
+	}
+	want := r.Chance(0.5)
+	n := r.Range(24, 70)
+	var terms []string
+	for try := 0; try < 40*n && len(terms) < n; try++ {
+		t := g.tree(scope, 0, 0)
+		if strings.Contains(t, "any ") || strings.Contains(t, "all ") {
+			continue
+		}
+		spec := obj
+		spec.Expr = t
+		out := NewObject(spec).Evaluate(root)
+		if out.Skip || out.HasErr || out.Panic != "" || out.Bool != want {
+			continue
+		}
+		terms = append(terms, t)
+	}
+	if len(terms) < 8 {
+		return ""
+	}
+	if want {
+		return strings.Join(terms, " and ")
+	}
+	return strings.Join(terms, " or ")
 }
 
 // AddSchedule draws a schedule for p from the per-op step counts and store
